@@ -148,7 +148,7 @@ func (r *runner) run() {
 
 func isRequestOp(op string) bool {
 	switch op {
-	case "close", "rst", "stall", "resume", "wait", "connect", "raw", "silence", "ws_ping", "midframe_close":
+	case "close", "rst", "stall", "resume", "wait", "connect", "raw", "silence", "ws_ping", "midframe_close", "offence":
 		return false
 	}
 	return true
@@ -232,6 +232,9 @@ func (r *runner) runSeq(st *Step) {
 	case "wait":
 		r.w.sim.RunFor(st.Dur)
 		r.quiesce()
+		return
+	case "offence":
+		r.offence(st)
 		return
 	}
 	c := r.client(st.Conn)
@@ -659,8 +662,22 @@ func diffMaps[K comparable, V comparable](got, want map[K]V) string {
 // serverSnapshot reads every live session through the repository's accessors.
 func (r *runner) serverSnapshot() map[string]*MSession {
 	snap := map[string]*MSession{}
+	ids := map[string]bool{}
+	for id := range r.m.Live {
+		ids[id] = true
+	}
+	for _, c := range r.clients {
+		if c.View.Joined {
+			ids[c.View.SessionID] = true
+		}
+	}
+	var idl []string
+	for id := range ids {
+		idl = append(idl, id)
+	}
+	sort.Strings(idl)
 	r.w.sim.Inspect(func() {
-		for _, id := range sortedSessionIDs(r.m.Live) {
+		for _, id := range idl {
 			ss, found := r.w.Sessions.GetByGlobalID(id)
 			if !found {
 				continue
@@ -729,16 +746,26 @@ func (r *runner) checkViews() {
 			}
 		}
 		r.inappAt[ci] = len(v.Inapplicable)
-		if mc.Gone || c.Ended() || mc.Session == nil {
+		if c.Ended() || c.sentFIN || !v.Joined {
 			continue
 		}
 		ms := mc.Session
-		s := snap[ms.UUID] // the server's own state is the truth a view is compared with
+		modelFollows := !r.desync && ms != nil && !mc.Gone
+		if !r.desync && (mc.Gone || ms == nil) {
+			continue
+		}
+		if r.desync && (ms == nil || ms.UUID != v.UUID) {
+			ms = newMSession(v.SessionID, v.UUID) // the model does not follow: no subscription knowledge
+		}
+		s := snap[v.UUID] // the server's own state is the truth a view is compared with
 		if s == nil {
+			if r.desync {
+				continue // checkBeliefs reports sessions that do not resolve
+			}
 			s = ms
 		}
-		if !v.Joined || v.UUID != s.UUID {
-			r.v("C01", "view-session", "%s believes it is in session %q (%s), the model says %s", c.Label, v.SessionID, v.UUID, s.UUID)
+		if modelFollows && v.UUID != ms.UUID {
+			r.v("C01", "view-session", "%s believes it is in session %q (%s), the model says %s", c.Label, v.SessionID, v.UUID, ms.UUID)
 			continue
 		}
 		wp := map[uint32]bool{}
